@@ -245,8 +245,11 @@ theorem lastNew_append (s₁ s₂ : List (Mut ν)) (n : Nat) :
 
 /-- the gate let this change through: mutations are enabled, or the genome's approval callback answered
     `approve` to exactly this change at some call -/
-def Authorised (env : Env ν) (g : Genome ν) (m : Mut ν) : Prop :=
-  g.allow = true ∨ ∃ c k, g.cb = some c ∧ env.adv c k m.gene m.orig m.new m.reason = .approve
+def AuthBy (env : Env ν) (allow : Bool) (cb : Option Nat) (m : Mut ν) : Prop :=
+  allow = true ∨ ∃ c k, cb = some c ∧ env.adv c k m.gene m.orig m.new m.reason = .approve
+
+/-- … by the gate settings genome `g` has -/
+def Authorised (env : Env ν) (g : Genome ν) (m : Mut ν) : Prop := AuthBy env g.allow g.cb m
 
 /-- `g'` results from `g` by operations of the API: the gate settings are fixed, the log only grows, every
     approved entry was let through by the gate, and — when mutations are disabled — every gene that was
@@ -280,12 +283,73 @@ theorem Evolves.trans {env : Env ν} {adds : Bool} {g₁ g₂ g₃ : Genome ν} 
     rcases List.mem_append.mp hm with hm | hm
     · exact ha₁ m hm hap
     · have := ha₂ m hm hap
-      unfold Authorised at this ⊢
+      unfold Authorised AuthBy at this ⊢
       rw [h₁.allow, h₁.cb] at this
       exact this
   · intro hal n x hx
     have e₁ := hg₁ hal n x hx
     have e₂ := hg₂ (hal.imp id (fun h => h₁.allow.trans h)) n _ e₁
+    rw [e₂, lastNew_append]
+    cases lastNew s₂ n <;> simp
+
+/-! ### evolution when the public gate attributes may be re-assigned in between
+
+`G allow cb` is a set of gate settings: "the settings that were in force at the moments the genome's
+`add_gene` / `mutate` / `rollback_mutation` were called".  The log only grows, every approved entry was let through by
+one of THOSE settings, and — if all of them have mutations disabled, or no `add_gene` was involved — every gene that
+was present is still there with the same record except that its value is the one written by the last approved entry
+added for it. -/
+structure EvolvesG (env : Env ν) (adds : Bool) (G : Bool → Option Nat → Prop) (g g' : Genome ν) : Prop where
+  generation : g'.generation = g.generation
+  parentHash : g'.parentHash = g.parentHash
+  main : ∃ s, g'.log = g.log ++ s ∧ (∀ m ∈ s, m.approved = true → ∃ a c, G a c ∧ AuthBy env a c m) ∧
+    ((adds = false ∨ ∀ a c, G a c → a = false) → ∀ n x, findGene g.genes n = some x →
+      findGene g'.genes n = some { x with value := (lastNew s n).getD x.value })
+
+/-- same gene table, log, generation, parent hash (only gate attributes / expression differ) -/
+theorem EvolvesG.of_same (env : Env ν) {adds : Bool} {G : Bool → Option Nat → Prop} {g g' : Genome ν}
+    (hg : g'.genes = g.genes) (hl : g'.log = g.log) (h1 : g'.generation = g.generation)
+    (h2 : g'.parentHash = g.parentHash) : EvolvesG env adds G g g' :=
+  ⟨h1, h2, [], by simp [hl], by simp, by intro _ n x h; rw [hg]; simpa [lastNew_nil] using h⟩
+
+theorem EvolvesG.refl (env : Env ν) {adds : Bool} {G : Bool → Option Nat → Prop} (g : Genome ν) :
+    EvolvesG env adds G g g := EvolvesG.of_same env rfl rfl rfl rfl
+
+theorem Evolves.toG {env : Env ν} {adds : Bool} {G : Bool → Option Nat → Prop} {g g' : Genome ν}
+    (h : Evolves env adds g g') (hG : G g.allow g.cb) : EvolvesG env adds G g g' := by
+  obtain ⟨s, hl, ha, hg⟩ := h.main
+  refine ⟨h.generation, h.parentHash, s, hl, fun m hm hap => ⟨g.allow, g.cb, hG, ha m hm hap⟩, ?_⟩
+  intro hc
+  exact hg (hc.imp id (fun h' => h' _ _ hG))
+
+theorem EvolvesG.mono {env : Env ν} {adds : Bool} {G G' : Bool → Option Nat → Prop} {g g' : Genome ν}
+    (h : EvolvesG env adds G g g') (hsub : ∀ a c, G a c → G' a c) : EvolvesG env adds G' g g' := by
+  obtain ⟨s, hl, ha, hg⟩ := h.main
+  refine ⟨h.generation, h.parentHash, s, hl, ?_, ?_⟩
+  · intro m hm hap
+    obtain ⟨a, c, hG, hau⟩ := ha m hm hap
+    exact ⟨a, c, hsub a c hG, hau⟩
+  · intro hc
+    exact hg (hc.imp id (fun h' a c hG => h' a c (hsub a c hG)))
+
+theorem EvolvesG.weaken {env : Env ν} {G : Bool → Option Nat → Prop} {g g' : Genome ν}
+    (h : EvolvesG env false G g g') : EvolvesG env true G g g' := by
+  obtain ⟨s, hl, ha, hg⟩ := h.main
+  exact ⟨h.generation, h.parentHash, s, hl, ha, fun _ => hg (Or.inl rfl)⟩
+
+theorem EvolvesG.trans {env : Env ν} {adds : Bool} {G : Bool → Option Nat → Prop} {g₁ g₂ g₃ : Genome ν}
+    (h₁ : EvolvesG env adds G g₁ g₂) (h₂ : EvolvesG env adds G g₂ g₃) : EvolvesG env adds G g₁ g₃ := by
+  obtain ⟨s₁, hl₁, ha₁, hg₁⟩ := h₁.main
+  obtain ⟨s₂, hl₂, ha₂, hg₂⟩ := h₂.main
+  refine ⟨h₂.generation.trans h₁.generation, h₂.parentHash.trans h₁.parentHash, s₁ ++ s₂, ?_, ?_, ?_⟩
+  · rw [hl₂, hl₁, List.append_assoc]
+  · intro m hm hap
+    rcases List.mem_append.mp hm with hm | hm
+    · exact ha₁ m hm hap
+    · exact ha₂ m hm hap
+  · intro hal n x hx
+    have e₁ := hg₁ hal n x hx
+    have e₂ := hg₂ hal n _ e₁
     rw [e₂, lastNew_append]
     cases lastNew s₂ n <;> simp
 
@@ -457,7 +521,20 @@ def Op.target : Op ν → Option Nat
   | .mutate i _ _ => some i
   | .rollback i _ => some i
   | .setExpr i _ _ => some i
+  | .assign i _ => some i
   | _ => none
+
+/-- the genome whose stored values an operation may change: `add_gene`, `mutate`, `rollback_mutation` -/
+def Op.mutator : Op ν → Option Nat
+  | .add i _ => some i
+  | .mutate i _ _ => some i
+  | .rollback i _ => some i
+  | _ => none
+
+/-- the operation is an attribute assignment on genome `j` -/
+def Op.assigns (j : Nat) : Op ν → Bool
+  | .assign i _ => i == j
+  | _ => false
 
 /-! equations of `step`, one per outcome -/
 /-- the genome id an operation names -/
@@ -473,6 +550,7 @@ def Op.addr : Op ν → Option Nat
   | .validate i => some i
   | .listGenes i => some i
   | .diff i _ => some i
+  | .assign i _ => some i
 
 theorem step_noid {env : Env ν} {st : Store ν} {op : Op ν} {i : Nat} (hop : op.addr = some i)
     (hi : st.genomes[i]? = none) : step env st op = (st, .bad) := by
@@ -519,6 +597,16 @@ theorem step_replicate_raised {env : Env ν} {st : Store ν} {i : Nat} {muts : L
     step env st (.replicate i muts inh) = (⟨st.genomes, k, d⟩, .raised) := by
   simp [step, hi, hr]
 
+theorem step_assign {env : Env ν} {st : Store ν} {i : Nat} {a : Assign} {g : Genome ν}
+    (hi : st.genomes[i]? = some g) :
+    step env st (.assign i a) = (⟨st.genomes.set i (assign g a), st.calls, st.draws⟩, .assigned) := by
+  simp [step, hi]
+
+theorem assign_same (g : Genome ν) (a : Assign) :
+    (assign g a).genes = g.genes ∧ (assign g a).expr = g.expr ∧ (assign g a).log = g.log ∧
+    (assign g a).generation = g.generation ∧ (assign g a).parentHash = g.parentHash := by
+  cases a <;> exact ⟨rfl, rfl, rfl, rfl, rfl⟩
+
 theorem step_express {env : Env ν} {st : Store ν} {i : Nat} {ctx : List Nat} {g : Genome ν}
     (hi : st.genomes[i]? = some g) : step env st (.express i ctx) = (st, .config (express g ctx)) := by
   simp [step, hi]
@@ -538,44 +626,45 @@ theorem step_query {env : Env ν} {st : Store ν} {op : Op ν}
 
 /-- Frame + evolution: after any operation every genome that existed is still at its place, has evolved by
     the API only, and is literally unchanged unless the operation was invoked on it. -/
-theorem step_frame (env : Env ν) (st : Store ν) (op : Op ν) (j : Nat) (g : Genome ν)
+theorem step_frame_ev (env : Env ν) (st : Store ν) (op : Op ν) (j : Nat) (g : Genome ν)
     (hj : st.genomes[j]? = some g) :
-    ∃ g', (step env st op).1.genomes[j]? = some g' ∧ Evolves env true g g' ∧ (op.target ≠ some j → g' = g) := by
+    ∃ g', (step env st op).1.genomes[j]? = some g' ∧
+      (Evolves env true g g' ∨ ∃ a, op = .assign j a ∧ g' = assign g a) ∧ (op.target ≠ some j → g' = g) := by
   cases op with
   | new allow cb rate genes =>
-    exact ⟨g, getElem?_append_of_some _ hj, Evolves.refl env g, fun _ => rfl⟩
+    exact ⟨g, getElem?_append_of_some _ hj, Or.inl (Evolves.refl env g), fun _ => rfl⟩
   | add i x =>
     cases hi : st.genomes[i]? with
-    | none => rw [step_noid rfl hi]; exact ⟨g, hj, Evolves.refl env g, fun _ => rfl⟩
+    | none => rw [step_noid rfl hi]; exact ⟨g, hj, Or.inl (Evolves.refl env g), fun _ => rfl⟩
     | some gi =>
       rw [step_add hi]
-      refine ⟨_, getElem?_set_of_some hj, ?_, ?_⟩
+      refine ⟨_, getElem?_set_of_some hj, Or.inl ?_, ?_⟩
       · by_cases hij : i = j
         · subst hij; rw [hi] at hj; cases hj; simpa using addGene_evolves env g x
         · simpa [hij] using Evolves.refl env g
       · intro ht; have : i ≠ j := fun h => ht (by simp [Op.target, h]); simp [this]
   | mutate i n v =>
     cases hi : st.genomes[i]? with
-    | none => rw [step_noid rfl hi]; exact ⟨g, hj, Evolves.refl env g, fun _ => rfl⟩
+    | none => rw [step_noid rfl hi]; exact ⟨g, hj, Or.inl (Evolves.refl env g), fun _ => rfl⟩
     | some gi =>
       cases hm : mutate env st.calls gi n v .user with
-      | raised k => rw [step_mutate_raised hi hm]; exact ⟨g, hj, Evolves.refl env g, fun _ => rfl⟩
+      | raised k => rw [step_mutate_raised hi hm]; exact ⟨g, hj, Or.inl (Evolves.refl env g), fun _ => rfl⟩
       | done g' b k =>
         rw [step_mutate_done hi hm]
-        refine ⟨_, getElem?_set_of_some hj, ?_, ?_⟩
+        refine ⟨_, getElem?_set_of_some hj, Or.inl ?_, ?_⟩
         · by_cases hij : i = j
           · subst hij; rw [hi] at hj; cases hj; simpa using mutate_evolves hm
           · simpa [hij] using Evolves.refl env g
         · intro ht; have : i ≠ j := fun h => ht (by simp [Op.target, h]); simp [this]
   | rollback i n =>
     cases hi : st.genomes[i]? with
-    | none => rw [step_noid rfl hi]; exact ⟨g, hj, Evolves.refl env g, fun _ => rfl⟩
+    | none => rw [step_noid rfl hi]; exact ⟨g, hj, Or.inl (Evolves.refl env g), fun _ => rfl⟩
     | some gi =>
       cases hm : rollback env st.calls gi n with
-      | raised k => rw [step_rollback_raised hi hm]; exact ⟨g, hj, Evolves.refl env g, fun _ => rfl⟩
+      | raised k => rw [step_rollback_raised hi hm]; exact ⟨g, hj, Or.inl (Evolves.refl env g), fun _ => rfl⟩
       | done g' b k =>
         rw [step_rollback_done hi hm]
-        refine ⟨_, getElem?_set_of_some hj, ?_, ?_⟩
+        refine ⟨_, getElem?_set_of_some hj, Or.inl ?_, ?_⟩
         · by_cases hij : i = j
           · subst hij; rw [hi] at hj; cases hj; simpa using rollback_evolves hm
           · simpa [hij] using Evolves.refl env g
@@ -583,10 +672,10 @@ theorem step_frame (env : Env ν) (st : Store ν) (op : Op ν) (j : Nat) (g : Ge
   | setExpr i n l =>
     cases hi : st.genomes[i]? with
     | none =>
-      rw [step_noid rfl hi]; exact ⟨g, hj, Evolves.refl env g, fun _ => rfl⟩
+      rw [step_noid rfl hi]; exact ⟨g, hj, Or.inl (Evolves.refl env g), fun _ => rfl⟩
     | some gi =>
       rw [step_setExpr hi]
-      refine ⟨_, getElem?_set_of_some hj, ?_, ?_⟩
+      refine ⟨_, getElem?_set_of_some hj, Or.inl ?_, ?_⟩
       · by_cases hij : i = j
         · subst hij; rw [hi] at hj; cases hj; simpa using setExpr_evolves env g n l
         · simpa [hij] using Evolves.refl env g
@@ -595,28 +684,95 @@ theorem step_frame (env : Env ν) (st : Store ν) (op : Op ν) (j : Nat) (g : Ge
     cases hi : st.genomes[i]? with
     | none =>
       rw [step_noid rfl hi]
-      exact ⟨g, hj, Evolves.refl env g, fun _ => rfl⟩
+      exact ⟨g, hj, Or.inl (Evolves.refl env g), fun _ => rfl⟩
     | some gi =>
       cases hr : replicate env st.calls st.draws gi muts inh with
-      | raised k d => rw [step_replicate_raised hi hr]; exact ⟨g, hj, Evolves.refl env g, fun _ => rfl⟩
+      | raised k d => rw [step_replicate_raised hi hr]; exact ⟨g, hj, Or.inl (Evolves.refl env g), fun _ => rfl⟩
       | ok c k d =>
         rw [step_replicate_ok hi hr]
-        exact ⟨g, getElem?_append_of_some _ hj, Evolves.refl env g, fun _ => rfl⟩
+        exact ⟨g, getElem?_append_of_some _ hj, Or.inl (Evolves.refl env g), fun _ => rfl⟩
   | express i ctx =>
     cases hi : st.genomes[i]? with
     | none =>
       rw [step_noid rfl hi]
-      exact ⟨g, hj, Evolves.refl env g, fun _ => rfl⟩
-    | some gi => rw [step_express hi]; exact ⟨g, hj, Evolves.refl env g, fun _ => rfl⟩
+      exact ⟨g, hj, Or.inl (Evolves.refl env g), fun _ => rfl⟩
+    | some gi => rw [step_express hi]; exact ⟨g, hj, Or.inl (Evolves.refl env g), fun _ => rfl⟩
   | getValue i n =>
     cases hi : st.genomes[i]? with
     | none =>
       rw [step_noid rfl hi]
-      exact ⟨g, hj, Evolves.refl env g, fun _ => rfl⟩
-    | some gi => rw [step_getValue hi]; exact ⟨g, hj, Evolves.refl env g, fun _ => rfl⟩
-  | validate i => rw [step_query (Or.inl ⟨i, rfl⟩)]; exact ⟨g, hj, Evolves.refl env g, fun _ => rfl⟩
-  | listGenes i => rw [step_query (Or.inr (Or.inl ⟨i, rfl⟩))]; exact ⟨g, hj, Evolves.refl env g, fun _ => rfl⟩
-  | diff i j' => rw [step_query (Or.inr (Or.inr ⟨i, j', rfl⟩))]; exact ⟨g, hj, Evolves.refl env g, fun _ => rfl⟩
+      exact ⟨g, hj, Or.inl (Evolves.refl env g), fun _ => rfl⟩
+    | some gi => rw [step_getValue hi]; exact ⟨g, hj, Or.inl (Evolves.refl env g), fun _ => rfl⟩
+  | validate i => rw [step_query (Or.inl ⟨i, rfl⟩)]; exact ⟨g, hj, Or.inl (Evolves.refl env g), fun _ => rfl⟩
+  | listGenes i => rw [step_query (Or.inr (Or.inl ⟨i, rfl⟩))]; exact ⟨g, hj, Or.inl (Evolves.refl env g), fun _ => rfl⟩
+  | diff i j' => rw [step_query (Or.inr (Or.inr ⟨i, j', rfl⟩))]; exact ⟨g, hj, Or.inl (Evolves.refl env g), fun _ => rfl⟩
+  | assign i a =>
+    cases hi : st.genomes[i]? with
+    | none => rw [step_noid rfl hi]; exact ⟨g, hj, Or.inl (Evolves.refl env g), fun _ => rfl⟩
+    | some gi =>
+      rw [step_assign hi]
+      refine ⟨_, getElem?_set_of_some hj, ?_, ?_⟩
+      · by_cases hij : i = j
+        · subst hij; rw [hi] at hj; cases hj; exact Or.inr ⟨a, rfl, by simp⟩
+        · left; simpa [hij] using Evolves.refl env g
+      · intro ht; have : i ≠ j := fun h => ht (by simp [Op.target, h]); simp [this]
+
+/-- Frame + evolution in the form used over histories: whatever set `G` of gate settings contains the setting in
+    force IF the operation is an `add_gene` / `mutate` / `rollback_mutation` on this genome, the genome evolves
+    under `G`; it is literally unchanged unless the operation was invoked on it; and its gate attributes change
+    only by an explicit assignment. -/
+theorem step_frame (env : Env ν) (st : Store ν) (op : Op ν) (j : Nat) (g : Genome ν)
+    (hj : st.genomes[j]? = some g) :
+    ∃ g', (step env st op).1.genomes[j]? = some g' ∧
+      (∀ G : Bool → Option Nat → Prop, (op.mutator = some j → G g.allow g.cb) → EvolvesG env true G g g') ∧
+      (op.target ≠ some j → g' = g) ∧
+      (op.assigns j = false → g'.allow = g.allow ∧ g'.cb = g.cb ∧ g'.rate = g.rate) ∧
+      (op.mutator ≠ some j → g'.genes = g.genes ∧ g'.log = g.log) := by
+  obtain ⟨g', h, hev, hfr⟩ := step_frame_ev env st op j g hj
+  have hsame : op.mutator ≠ some j → g'.genes = g.genes ∧ g'.log = g.log ∧ g'.generation = g.generation ∧
+      g'.parentHash = g.parentHash := by
+    intro hm
+    by_cases ht : op.target = some j
+    · cases op with
+      | setExpr i n l =>
+        simp only [Op.target, Option.some.injEq] at ht; subst ht
+        rw [step_setExpr hj] at h
+        have := getElem?_set_of_some (i := i) (a := (setExpr g n l).1) hj
+        rw [if_pos rfl] at this
+        simp only at h; rw [this] at h; cases h
+        have ev := setExpr_evolves env (adds := true) g n l
+        exact ⟨(setExpr_genes g n l).1, (setExpr_genes g n l).2, ev.generation, ev.parentHash⟩
+      | assign i a =>
+        simp only [Op.target, Option.some.injEq] at ht; subst ht
+        rw [step_assign hj] at h
+        have := getElem?_set_of_some (i := i) (a := assign g a) hj
+        rw [if_pos rfl] at this
+        simp only at h; rw [this] at h; cases h
+        obtain ⟨h1, -, h3, h4, h5⟩ := assign_same g a
+        exact ⟨h1, h3, h4, h5⟩
+      | add i x => exact absurd ht hm
+      | mutate i n v => exact absurd ht hm
+      | rollback i n => exact absurd ht hm
+      | new _ _ _ _ => simp [Op.target] at ht
+      | replicate _ _ _ => simp [Op.target] at ht
+      | express _ _ => simp [Op.target] at ht
+      | getValue _ _ => simp [Op.target] at ht
+      | validate _ => simp [Op.target] at ht
+      | listGenes _ => simp [Op.target] at ht
+      | diff _ _ => simp [Op.target] at ht
+    · have := hfr ht; subst this; exact ⟨rfl, rfl, rfl, rfl⟩
+  refine ⟨g', h, ?_, hfr, ?_, fun hm => ⟨(hsame hm).1, (hsame hm).2.1⟩⟩
+  · intro G hG
+    by_cases hm : op.mutator = some j
+    · rcases hev with ev | ⟨a, rfl, -⟩
+      · exact ev.toG (hG hm)
+      · simp [Op.mutator] at hm
+    · obtain ⟨h1, h2, h3, h4⟩ := hsame hm
+      exact EvolvesG.of_same env h1 h2 h3 h4
+  · intro hna
+    rcases hev with ev | ⟨a, rfl, -⟩
+    · exact ⟨ev.allow, ev.cb, ev.rate⟩
+    · simp [Op.assigns] at hna
 
 theorem run_nil (env : Env ν) (st : Store ν) : run env st [] = st := rfl
 theorem run_cons (env : Env ν) (st : Store ν) (op : Op ν) (ops : List (Op ν)) :
@@ -628,16 +784,90 @@ theorem run_append (env : Env ν) (st : Store ν) (a b : List (Op ν)) :
   | nil => rfl
   | cons op rest ih => simp [run_cons, ih]
 
-/-- over any history every genome that existed evolves by the API only -/
-theorem run_evolves (env : Env ν) (ops : List (Op ν)) : ∀ (st : Store ν) (j : Nat) (g : Genome ν),
-    st.genomes[j]? = some g → ∃ g', (run env st ops).genomes[j]? = some g' ∧ Evolves env true g g' := by
+/-- "at every moment the history calls `add_gene` / `mutate` / `rollback_mutation` on genome `i`, the gate settings
+    that genome has AT THAT MOMENT are in `G`" (the public attributes may have been re-assigned in between) -/
+def CallsUnder (env : Env ν) (G : Bool → Option Nat → Prop) (i : Nat) : Store ν → List (Op ν) → Prop
+  | _, [] => True
+  | st, op :: rest =>
+    (∀ g, op.mutator = some i → st.genomes[i]? = some g → G g.allow g.cb) ∧ CallsUnder env G i (step env st op).1 rest
+
+theorem callsUnder_true (env : Env ν) (i : Nat) (ops : List (Op ν)) :
+    ∀ st, CallsUnder env (fun _ _ => True) i st ops := by
   induction ops with
-  | nil => intro st j g h; exact ⟨g, h, Evolves.refl env g⟩
+  | nil => intro st; trivial
+  | cons op rest ih => intro st; exact ⟨fun _ _ _ => trivial, ih _⟩
+
+theorem CallsUnder.mono {env : Env ν} {G G' : Bool → Option Nat → Prop} (hsub : ∀ a c, G a c → G' a c) {i : Nat}
+    (ops : List (Op ν)) : ∀ {st}, CallsUnder env G i st ops → CallsUnder env G' i st ops := by
+  induction ops with
+  | nil => intro st _; trivial
+  | cons op rest ih => intro st h; exact ⟨fun g hm hg => hsub _ _ (h.1 g hm hg), ih h.2⟩
+
+/-- executable form of `CallsUnder` for concrete histories (used by the non-vacuity examples) -/
+def callsUnderB (env : Env ν) (P : Bool → Option Nat → Bool) (i : Nat) : Store ν → List (Op ν) → Bool
+  | _, [] => true
+  | st, op :: rest =>
+    (match st.genomes[i]? with
+     | some g => op.mutator != some i || P g.allow g.cb
+     | none => true) && callsUnderB env P i (step env st op).1 rest
+
+theorem callsUnder_of_B {env : Env ν} {P : Bool → Option Nat → Bool} {G : Bool → Option Nat → Prop}
+    (hP : ∀ a c, P a c = true → G a c) {i : Nat} (ops : List (Op ν)) :
+    ∀ {st}, callsUnderB env P i st ops = true → CallsUnder env G i st ops := by
+  induction ops with
+  | nil => intro st _; trivial
   | cons op rest ih =>
-    intro st j g h
-    obtain ⟨g₁, h₁, e₁, -⟩ := step_frame env st op j g h
-    obtain ⟨g₂, h₂, e₂⟩ := ih _ j g₁ h₁
-    exact ⟨g₂, h₂, e₁.trans e₂⟩
+    intro st h
+    simp only [callsUnderB, Bool.and_eq_true] at h
+    refine ⟨fun g hm hg => ?_, ih h.2⟩
+    have h1 := h.1
+    rw [hg] at h1
+    simp only [hm, bne_self_eq_false, Bool.false_or] at h1
+    exact hP _ _ h1
+
+/-- no attribute assignment on genome `i` in the history -/
+def NoAssign (i : Nat) (ops : List (Op ν)) : Prop := ∀ op ∈ ops, op.assigns i = false
+
+/-- over any history every genome that existed evolves by the API only, under the gate settings in force at the
+    moments of the calls -/
+theorem run_evolves (env : Env ν) (G : Bool → Option Nat → Prop) (ops : List (Op ν)) :
+    ∀ (st : Store ν) (j : Nat) (g : Genome ν), st.genomes[j]? = some g → CallsUnder env G j st ops →
+      ∃ g', (run env st ops).genomes[j]? = some g' ∧ EvolvesG env true G g g' := by
+  induction ops with
+  | nil => intro st j g h _; exact ⟨g, h, EvolvesG.refl env g⟩
+  | cons op rest ih =>
+    intro st j g h hc
+    obtain ⟨g₁, h₁, e₁, -, -, -⟩ := step_frame env st op j g h
+    obtain ⟨g₂, h₂, e₂⟩ := ih _ j g₁ h₁ hc.2
+    exact ⟨g₂, h₂, (e₁ G (fun hm => hc.1 g hm h)).trans e₂⟩
+
+/-- without assignments the gate attributes are what they were -/
+theorem run_gate_fixed (env : Env ν) (ops : List (Op ν)) :
+    ∀ (st : Store ν) (j : Nat) (g : Genome ν), st.genomes[j]? = some g → NoAssign j ops →
+      ∃ g', (run env st ops).genomes[j]? = some g' ∧ g'.allow = g.allow ∧ g'.cb = g.cb ∧ g'.rate = g.rate := by
+  induction ops with
+  | nil => intro st j g h _; exact ⟨g, h, rfl, rfl, rfl⟩
+  | cons op rest ih =>
+    intro st j g h hn
+    obtain ⟨g₁, h₁, -, -, hg, -⟩ := step_frame env st op j g h
+    obtain ⟨a1, a2, a3⟩ := hg (hn op List.mem_cons_self)
+    obtain ⟨g₂, h₂, b1, b2, b3⟩ := ih _ j g₁ h₁ (fun o ho => hn o (List.mem_cons_of_mem _ ho))
+    exact ⟨g₂, h₂, b1.trans a1, b2.trans a2, b3.trans a3⟩
+
+/-- … so a history without assignments on `i` makes all its calls under the settings `i` starts with -/
+theorem callsUnder_of_noAssign (env : Env ν) (ops : List (Op ν)) :
+    ∀ (st : Store ν) (j : Nat) (g : Genome ν), st.genomes[j]? = some g → NoAssign j ops →
+      CallsUnder env (fun a c => a = g.allow ∧ c = g.cb) j st ops := by
+  induction ops with
+  | nil => intro st j g _ _; trivial
+  | cons op rest ih =>
+    intro st j g h hn
+    refine ⟨fun g' _ hg' => by rw [h] at hg'; cases hg'; exact ⟨rfl, rfl⟩, ?_⟩
+    obtain ⟨g₁, h₁, -, -, hg, -⟩ := step_frame env st op j g h
+    obtain ⟨a1, a2, -⟩ := hg (hn op List.mem_cons_self)
+    have := ih _ j g₁ h₁ (fun o ho => hn o (List.mem_cons_of_mem _ ho))
+    rw [a1, a2] at this
+    exact this
 
 /-! ### finer facts about `mutate` -/
 
@@ -697,60 +927,63 @@ def ReAdds (env : Env ν) (i : Nat) : Store ν → List (Op ν) → Prop
     (∀ x g, op = .add i x → st.genomes[i]? = some g → (findGene g.genes x.name).isSome = true) ∧
     ReAdds env i (step env st op).1 rest
 
+/-- gate settings that authorise nothing: mutations disabled and the callback (if any) never approves anything -/
+def Unauth (env : Env ν) (allow : Bool) (cb : Option Nat) : Prop :=
+  allow = false ∧ ∀ c, cb = some c → ∀ k n o v r, env.adv c k n o v r ≠ .approve
+
+theorem unauth_iff (env : Env ν) (g : Genome ν) : Unauth env g.allow g.cb ↔ (g.allow = false ∧ NeverApproves env g) :=
+  Iff.rfl
+
 theorem step_unauthorised {env : Env ν} {st : Store ν} {op : Op ν} {i : Nat} {g : Genome ν}
-    (hi : st.genomes[i]? = some g) (hal : g.allow = false) (hna : NeverApproves env g)
+    (hi : st.genomes[i]? = some g) (hun : op.mutator = some i → Unauth env g.allow g.cb)
     (hre : ∀ x, op = .add i x → (findGene g.genes x.name).isSome = true) :
-    ∃ g', (step env st op).1.genomes[i]? = some g' ∧ g'.genes = g.genes ∧ g'.allow = g.allow ∧ g'.cb = g.cb := by
-  obtain ⟨g', hg', -, hfr⟩ := step_frame env st op i g hi
-  by_cases ht : op.target = some i
-  · cases op with
+    ∃ g', (step env st op).1.genomes[i]? = some g' ∧ g'.genes = g.genes := by
+  obtain ⟨g', hg', -, -, -, hsame⟩ := step_frame env st op i g hi
+  by_cases ht : op.mutator = some i
+  · obtain ⟨hal, hna⟩ := hun ht
+    cases op with
     | add i' x =>
-      simp only [Op.target, Option.some.injEq] at ht; subst ht
+      simp only [Op.mutator, Option.some.injEq] at ht; subst ht
       rw [step_add hi, addGene_refused hal (hre x rfl)]
-      exact ⟨g, by simpa using getElem?_set_of_some (i := i') (a := g) hi, rfl, rfl, rfl⟩
+      exact ⟨g, by simpa using getElem?_set_of_some (i := i') (a := g) hi, rfl⟩
     | mutate i' n v =>
-      simp only [Op.target, Option.some.injEq] at ht; subst ht
+      simp only [Op.mutator, Option.some.injEq] at ht; subst ht
       cases hm : mutate env st.calls g n v .user with
-      | raised k => rw [step_mutate_raised hi hm]; exact ⟨g, hi, rfl, rfl, rfl⟩
+      | raised k => rw [step_mutate_raised hi hm]; exact ⟨g, hi, rfl⟩
       | done g₁ b k =>
         rw [step_mutate_done hi hm]
-        obtain ⟨h1, h2, h3, -⟩ := mutate_unauthorised hal hna hm
-        exact ⟨g₁, by simpa using getElem?_set_of_some (i := i') (a := g₁) hi, h1, h2, h3⟩
+        obtain ⟨h1, -, -, -⟩ := mutate_unauthorised hal hna hm
+        exact ⟨g₁, by simpa using getElem?_set_of_some (i := i') (a := g₁) hi, h1⟩
     | rollback i' n =>
-      simp only [Op.target, Option.some.injEq] at ht; subst ht
+      simp only [Op.mutator, Option.some.injEq] at ht; subst ht
       cases hm : rollback env st.calls g n with
-      | raised k => rw [step_rollback_raised hi hm]; exact ⟨g, hi, rfl, rfl, rfl⟩
+      | raised k => rw [step_rollback_raised hi hm]; exact ⟨g, hi, rfl⟩
       | done g₁ b k =>
         rw [step_rollback_done hi hm]
-        obtain ⟨h1, h2, h3, -⟩ := rollback_unauthorised hal hna hm
-        exact ⟨g₁, by simpa using getElem?_set_of_some (i := i') (a := g₁) hi, h1, h2, h3⟩
-    | setExpr i' n l =>
-      simp only [Op.target, Option.some.injEq] at ht; subst ht
-      rw [step_setExpr hi]
-      refine ⟨_, by simpa using getElem?_set_of_some (i := i') (a := (setExpr g n l).1) hi, (setExpr_genes g n l).1, ?_, ?_⟩
-      · exact (setExpr_evolves env (adds := true) g n l).allow
-      · exact (setExpr_evolves env (adds := true) g n l).cb
-    | new _ _ _ _ => simp [Op.target] at ht
-    | replicate _ _ _ => simp [Op.target] at ht
-    | express _ _ => simp [Op.target] at ht
-    | getValue _ _ => simp [Op.target] at ht
-    | validate _ => simp [Op.target] at ht
-    | listGenes _ => simp [Op.target] at ht
-    | diff _ _ => simp [Op.target] at ht
-  · have := hfr ht
-    subst this
-    exact ⟨g', hg', rfl, rfl, rfl⟩
+        obtain ⟨h1, -, -, -⟩ := rollback_unauthorised hal hna hm
+        exact ⟨g₁, by simpa using getElem?_set_of_some (i := i') (a := g₁) hi, h1⟩
+    | setExpr _ _ _ => simp [Op.mutator] at ht
+    | assign _ _ => simp [Op.mutator] at ht
+    | new _ _ _ _ => simp [Op.mutator] at ht
+    | replicate _ _ _ => simp [Op.mutator] at ht
+    | express _ _ => simp [Op.mutator] at ht
+    | getValue _ _ => simp [Op.mutator] at ht
+    | validate _ => simp [Op.mutator] at ht
+    | listGenes _ => simp [Op.mutator] at ht
+    | diff _ _ => simp [Op.mutator] at ht
+  · exact ⟨g', hg', (hsame ht).1⟩
 
+/-- Whatever is assigned to the gate attributes in between: if at every moment `add_gene` / `mutate` /
+    `rollback_mutation` is called on genome `i` its settings authorise nothing, its gene table never changes. -/
 theorem run_unauthorised {env : Env ν} (ops : List (Op ν)) : ∀ {st : Store ν} {i : Nat} {g : Genome ν},
-    st.genomes[i]? = some g → g.allow = false → NeverApproves env g → ReAdds env i st ops →
+    st.genomes[i]? = some g → CallsUnder env (Unauth env) i st ops → ReAdds env i st ops →
     ∃ g', (run env st ops).genomes[i]? = some g' ∧ g'.genes = g.genes := by
   induction ops with
-  | nil => intro st i g hi _ _ _; exact ⟨g, hi, rfl⟩
+  | nil => intro st i g hi _ _; exact ⟨g, hi, rfl⟩
   | cons op rest ih =>
-    intro st i g hi hal hna hre
-    obtain ⟨g₁, h₁, hg, ha, hc⟩ := step_unauthorised (op := op) hi hal hna (fun x hx => hre.1 x g hx hi)
-    have hna₁ : NeverApproves env g₁ := by intro c hc'; exact hna c (hc ▸ hc')
-    obtain ⟨g₂, h₂, hg₂⟩ := ih h₁ (ha.trans hal) hna₁ hre.2
+    intro st i g hi hcu hre
+    obtain ⟨g₁, h₁, hg⟩ := step_unauthorised (op := op) hi (fun hm => hcu.1 g hm hi) (fun x hx => hre.1 x g hx hi)
+    obtain ⟨g₂, h₂, hg₂⟩ := ih h₁ hcu.2 hre.2
     exact ⟨g₂, h₂, hg₂.trans hg⟩
 
 /-! ### well-formedness: gene names are distinct (a dict) -/
@@ -956,6 +1189,16 @@ theorem step_wf (env : Env ν) (st : Store ν) (op : Op ν) (hw : WF st) : WF (s
   | validate i => rw [step_query (Or.inl ⟨i, rfl⟩)]; exact hw
   | listGenes i => rw [step_query (Or.inr (Or.inl ⟨i, rfl⟩))]; exact hw
   | diff i j => rw [step_query (Or.inr (Or.inr ⟨i, j, rfl⟩))]; exact hw
+  | assign i a =>
+    cases hi : st.genomes[i]? with
+    | none => rw [step_noid rfl hi]; exact hw
+    | some gi =>
+      rw [step_assign hi]
+      intro g hg
+      rcases mem_set_cases hg with rfl | hg
+      · have := hw gi (List.mem_of_getElem? hi)
+        unfold WFG at this ⊢; rw [(assign_same gi a).1]; exact this
+      · exact hw g hg
 
 theorem run_wf (env : Env ν) (ops : List (Op ν)) : ∀ (st : Store ν), WF st → WF (run env st ops) := by
   induction ops with
@@ -1468,6 +1711,16 @@ theorem step_keysEq (env : Env ν) (st : Store ν) (op : Op ν) (hw : KeysEqS st
   | validate i => rw [step_query (Or.inl ⟨i, rfl⟩)]; exact hw
   | listGenes i => rw [step_query (Or.inr (Or.inl ⟨i, rfl⟩))]; exact hw
   | diff i j => rw [step_query (Or.inr (Or.inr ⟨i, j, rfl⟩))]; exact hw
+  | assign i a =>
+    cases hi : st.genomes[i]? with
+    | none => rw [step_noid rfl hi]; exact hw
+    | some gi =>
+      rw [step_assign hi]
+      intro g hg
+      rcases mem_set_cases hg with rfl | hg
+      · have := hw gi (List.mem_of_getElem? hi)
+        unfold KeysEq at this ⊢; rw [(assign_same gi a).1, (assign_same gi a).2.1]; exact this
+      · exact hw g hg
 
 theorem run_keysEq (env : Env ν) (ops : List (Op ν)) : ∀ (st : Store ν), KeysEqS st → KeysEqS (run env st ops) := by
   induction ops with
